@@ -95,6 +95,14 @@ def spectrum(rng, k, kind):
     elif kind == "smalltail":
         t = float(2.0 ** -int(rng.integers(2, 20)))
         s = np.array([1.0] + [np.sqrt(rng.choice([0.3, 0.6, 0.9]) * t)] * (k - 1))
+    elif kind == "widerange":
+        # a few dominant values (norm up to 1e4) and a tail many orders of magnitude below: s**2 of the tail is below one ulp
+        # of the total weight, so any rule that subtracts from the total instead of accumulating from the small end loses it
+        big = int(rng.integers(1, max(2, k // 2 + 1)))
+        scale = float(10.0 ** rng.integers(0, 5))
+        head = np.sort(rng.uniform(0.5, 1.0, size=big))[::-1] * scale
+        tail = np.sort(10.0 ** rng.uniform(-10, -4, size=k - big))[::-1]
+        s = np.concatenate([head, tail])
     elif kind == "dyadic":
         s = np.sort(rng.integers(0, 65, size=k) / 64.0)[::-1]
     else:
@@ -102,7 +110,7 @@ def spectrum(rng, k, kind):
     return [float(x) for x in s]
 
 
-KINDS = ("decay", "ties", "rankdef", "zero", "dyadic", "uniform", "smalltail")
+KINDS = ("decay", "ties", "rankdef", "zero", "dyadic", "uniform", "smalltail", "widerange")
 
 
 def tie_threshold(s, j):
